@@ -54,8 +54,8 @@ def run(res):
     quick = res.tier == "quick"
     lib.proof_stage(res, "C14.v", "Props.C14", PINNED)
     cov = res.coverage
-    sizes = [("systematic", 260), ("random", 500), ("malformed", 260), ("burial", 3), ("window", 2), ("testnet", 40)] if quick else \
-            [("systematic", 100000), ("random", 12000), ("malformed", 4000), ("burial", 3), ("window", 2), ("testnet", 600)]
+    sizes = [("systematic", 260), ("random", 500), ("malformed", 260), ("burial", 3), ("window", 2), ("testnet", 40), ("midstream", 36)] if quick else \
+            [("systematic", 100000), ("random", 12000), ("malformed", 4000), ("burial", 3), ("window", 2), ("testnet", 600), ("midstream", 300)]
     cases, fails, stats = correspondence(res, sizes)
     wcases, wfails = window_failures(cases)
     if any(c.get("max_reorg_size") != 100 for c in cases):
@@ -106,7 +106,11 @@ def run(res):
                 "double spends, a second close, a two-input close, children before parents, a commitment the signer "
                 "has no info for, and a stream without block start; burial: is_done at depth 99/100/99; window: 103 blocks connected, MAX_REORG_SIZE-1 back and forward again, "
                 "exactly MAX_REORG_SIZE back (all accepted, view of the first 3 blocks), one more (refused, nothing changes), "
-                "with and without a restart; testnet: signers on a network with compiled-in checkpoints, restarts at small non-zero heights "
+                "with and without a restart; midstream: the channel is set up between two chunks of a streamed block that then connects (the code's behaviour, "
+                "as modelled: the new monitor ignores the rest of that block and stays one block behind the tracker), is refused as an "
+                "orphan, or belongs to a refused RemoveBlock - the monitor's own height and ChainState::current_height are compared with "
+                "the tracker's height right after the set-up and after every delivery (in every tracker-driven case); "
+                "testnet: signers on a network with compiled-in checkpoints, restarts at small non-zero heights "
                 "(the tracker's tip / height / remembered headers must survive the restart), then disconnect the last block and connect a competing one; every tracker-driven case also checks ChainTracker::headers.len() after each "
                 "delivery against the window model. Delivery "
                 "compact (SPV part with every transaction), watched (SPV part with what the tracker's watch sets match, empty for "
